@@ -28,10 +28,10 @@ func init() {
 
 // Scenario mirrors the `fault` record of Containment.tla.
 type Scenario struct {
-	Node int    `json:"node"` // 1 = from, 2 = eval/alert, 3 = log (sink)
-	Kind string `json:"kind"` // pointErr | nodeErr | panic | stoprace (victim stopped while a writer is blocked on its full edge) | share (victim rewrites a tag of points it shares with the bystander)
-	At   int    `json:"at"`   // point number (0 = when the node goroutine starts)
-	N    int    `json:"n"`    // points written
+	Node  int    `json:"node"`  // 1 = from, 2 = eval/alert, 3 = log (sink)
+	Kind  string `json:"kind"`  // pointErr | nodeErr | panic | stoprace (victim stopped while a writer is blocked on its full edge) | share (victim rewrites a tag of points it shares with the bystander)
+	At    int    `json:"at"`    // point number (0 = when the node goroutine starts)
+	N     int    `json:"n"`     // points written
 	Trig  string `json:"trig"`  // pointErr trigger: div0 | substr (built-in that panics) | missing (field absent, referenced twice in one call)
 	Flood int    `json:"flood"` // further points written after the scenario's n points (more than the edge buffers hold)
 }
@@ -289,7 +289,6 @@ func firstLines(s string, n int) string {
 	}
 	return strings.Join(l, " | ")
 }
-
 
 // stopRace: the victim's first node is parked, so its 1000-slot fork edge fills and the forking
 // goroutine blocks inside Collect; the victim is then stopped and the node released.  Whatever the
